@@ -291,6 +291,17 @@ def run_scenario(sc, channel_patch=None):
             for ep in (0, 1):
                 if plans[ep]:
                     jobs.append(run_plan(ep, ch, plans[ep]))
+        async def close_job(c):
+            # the bumble side closes one (idle) channel while its siblings keep transferring: the credit routing and
+            # the byte streams of the other channels must not notice
+            await asyncio.sleep(c["at"])
+            ch = wire.chans[c["ch"]]
+            if any(sc["writes"][ch.idx]):
+                raise HarnessError("close of a channel that carries data in this scenario")
+            await app0.channel_for(ch).disconnect()
+
+        for c in sc.get("close", []):
+            jobs.append(close_job(c))
         await asyncio.gather(*jobs)
         state["phase"] = "settle"
 
